@@ -105,7 +105,11 @@ def build_many(cfgs):
 
 
 class Job:
-    def __init__(self, scenario, configs, quick, thorough, rule, note=""):
+    def __init__(self, scenario, configs, quick, thorough, rule, note="", only=None, relabel=None):
+        # only / relabel: keep only violations whose oracle matches the regex and report them under another
+        # property (used by C14 to sweep other scenarios for panics, signals and hangs only)
+        self.only = only
+        self.relabel = relabel
         self.scenario = scenario
         self.configs = configs if isinstance(configs, list) else [configs]
         self.quick = quick
@@ -502,7 +506,8 @@ def report_violations(prop, viols, binaries, primary_cfg):
             else:
                 def accepts(t, sg=sg, binary=binary):
                     got, _ = replay_text(binary, t)
-                    return any(sig_of(g) == sg for g in got)
+                    # (oracle, api) decide; the property label may have been reassigned by the job
+                    return any(sig_of(g)[1:] == sg[1:] for g in got)
             try:
                 if accepts(text):
                     minimised, execs = shrink(accepts, text)
@@ -514,7 +519,7 @@ def report_violations(prop, viols, binaries, primary_cfg):
                             final_detail = d
                     else:
                         got, _ = replay_text(binary, minimised, "final")
-                        same = [g for g in got if sig_of(g) == sg]
+                        same = [g for g in got if sig_of(g)[1:] == sg[1:]]
                         if same:
                             final_detail = same[0].get("detail", final_detail)
                         else:
@@ -674,6 +679,14 @@ PROPS = {
                 "threshold (5-digit block, 32/33, 64, 256/257 digits, 2x imbalance) and all-ones / sparse / power-of-two digit patterns; "
                 "every step not classified as a documented failure must return; distinct = distinct (operation form, scalar type)"),
             Job("c14h", "std-release", 60_000, 1_500_000, "same plans, release harness"),
+            Job("c09iter", "std-debug", 150_000, 2_000_000,
+                "the two-ended digit-iterator plans, swept for panics / overflow / signals only (value oracles belong to C09)",
+                only=r"panic|signal", relabel="C14"),
+            Job("c09bytes", "std-debug", 100_000, 2_000_000,
+                "the byte/word import-export plans, swept for panics / signals only", only=r"panic|signal", relabel="C14"),
+            Job("c11", "std-debug", 60_000, 1_000_000,
+                "the root plans (incl. guess faults), swept for panics outside the documented set, signals and hangs only",
+                only=r"unexpected-panic|signal", relabel="C14"),
         ],
         assumptions=[
             "expect(): classification of documented failures from reference denotations before the step runs",
@@ -921,7 +934,12 @@ def check_property(prop, tier, seed):
                 job.scenario, cfg, jr.runs, jr.steps, jr.cover_count, jr.wall, len(jr.violations)))
             per_cfg.append(jr)
             results.append(jr)
-            viols.extend(jr.violations)
+            for v in jr.violations:
+                if job.only and not re.search(job.only, v["oracle"]):
+                    continue
+                if job.relabel:
+                    v = dict(v, property=job.relabel)
+                viols.append(v)
         if multi:
             base = per_cfg[0]
             for other in per_cfg[1:]:
